@@ -117,6 +117,13 @@ def shard(a):
                     prop({'mod': name, 'value': core.enc(v[:i] + c + v[i + 1:]), 'opts': {}, 'clock': None}, res)
                 if i % 2 == 0 or i >= len(v) - 1:
                     prop({'mod': name, 'value': core.enc(v[:i] + c + v[i:]), 'opts': {}, 'clock': None}, res)
+    # very long inputs (the quantifier's "any length"): digit strings beyond the 4300-digit int() conversion limit, with
+    # and without the prefixes / separators the module strips, plus long letter runs
+    cc = name.split('.')[0].upper().rstrip('_') if '.' in name else ''
+    first = picks[0] if picks else '1'
+    for x in ['0' * 4301, '1' * 4301, '9' * 5000, cc + '0' * 4400, cc + ' ' + '12' * 2300, first + '7' * 4400, first[:2] + '3' * 4400 + first[-2:],
+              '1' * 4300 + 'X', 'A' * 5000, '-'.join(['1234'] * 1200), first + ' ' * 5000 + first]:
+        prop({'mod': name, 'value': core.enc(x), 'opts': {}, 'clock': None}, res)
     res.hist['sweep-cases'] += res.evals - before
     res.notes['cases_per_module'] = {name: res.evals}
     return res
